@@ -5197,6 +5197,9 @@ class DfaCompileCtx:
         Convert the AST into a (potentially optimized) DFA.
         """
 
+        if self.ast is None:
+            raise IllegalASTStateError("The parser must match some input (it only contains actions)")
+
         self.dfa = self.ast.convert(defaultdict(lambda: self.generic_fail_state))
         self.dfa.add(self.generic_fail_state)
 
